@@ -375,7 +375,7 @@ func (l *List) Inspect() string {
 // Remove eliminates the value form the element in the pos index
 // the element replaces with a nil value.
 func (l *List) Remove(pos int64) Object {
-	if int64(len(l.Value)) > pos {
+	if pos >= 0 && int64(len(l.Value)) > pos {
 		l.Value[pos] = nil
 		l.dirty = true
 
@@ -422,6 +422,11 @@ func (l *List) ToDynamoDB() types.Item {
 
 // Get returns the contained object in the position
 func (l *List) Get(position int64) Object {
+	if position < 0 || position >= int64(len(l.Value)) {
+		// an element that is not in the list is like an attribute that is not in the item
+		return UNDEFINED
+	}
+
 	obj := l.Value[position]
 	if obj == nil {
 		return UNDEFINED
